@@ -20,6 +20,29 @@ CHECKS = {
             "empty and nil values; every return value is compared with an in-memory map and a full read-back plus iteration closes each case. "
             "Exploration is the right level: the property quantifies over unbounded histories and key sets, the oracle is exact and cheap, and a failure shrinks to a few calls.",
             BASE, "4 C01"),
+    "C02": (True, "exploration", "model-based property testing (rapid histories with close/reopen, three recovery paths compared, metamorphic attribution)",
+            "Random histories with Close/reopen at arbitrary positions (after roll-overs, removals of flushed keys, GC cycles). At each reopen the closed directory is opened three ways "
+            "(bucket snapshot, snapshot deleted = rescan, snapshot of the wrong size) and every copy must read back exactly the reference map; the decoded record list of every bucket must agree across the "
+            "recovery paths (read through a verif-tagged accessor), Close is called twice, and the run continues on the reopened store. A failure only counts if the same history passes with the reopen "
+            "actions skipped, so defects of other properties are not blamed on recovery. Exploration with an exact oracle is the right level for a statement over all histories.",
+            BASE, "4 C02"),
+    "C04": (True, "exploration", "model-based property testing (rapid histories with GC actions; metamorphic relation: GC actions are no-ops for every observable result)",
+            "Random histories on the multihash primary with tiny file sizes in which primary GC cycles (threshold 0..100) and index GC cycles (scan-free on/off), optionally interrupted by a call budget and "
+            "resumed, run at arbitrary positions including before the first flush; all results are compared with a map that ignores GC, panics inside GC are violations, and a failing case is re-run with "
+            "the GC actions skipped (it must then pass) so only GC-caused deviations are reported. Named points counted per case show which GC actions (mark, merge, truncate, unlink, header advance, "
+            "relocation of >=2 records) were really exercised.",
+            BASE + " An error returned by a GC cycle is not treated as a violation (the statement is about contents).", "4 C04"),
+    "C07": (True, "exploration", "property testing with an independent file-format reader (fsck) as invariant oracle after every quiescent step",
+            "Random histories (all primaries, GC, reopen) during which an independent re-implementation of the on-disk formats checks every clause of the invariant after each Flush, completed GC cycle, reopen and "
+            "Close: live table = own rescan = snapshot; bucket -> complete, non-deleted, correctly tagged record; entries sorted, prefix-free, distinct locations; entry -> complete, non-deleted primary record "
+            "with matching size, bucket bits and stored prefix; no live location on the freelist files; first-file numbers not beyond referenced files.",
+            BASE + " The fsck reader is written from the format description and shares no code with the repository; it is itself trusted.", "4 C07"),
+    "C11": (True, "exploration", "property testing with validity predicates over generated histories (kill phase + GC cycles to a fixed point)",
+            "Random histories followed by a generated kill phase (remove/overwrite every key in non-current primary files, rewrite every bucket referring into non-current index files, flush) and rounds of "
+            "[primary GC, index GC, flush]; checked: a byte-identical fixed point is reached within a generous bound derived from the cycle structure, every fully dead primary file and every unreferenced index file "
+            "is empty or gone there, no non-current file is still low-use by the threshold, StorageSize never grows inside a cycle and grows at the following flush by at most the outstanding (relocated) work. "
+            "Liveness is checked in this bounded form, which is what generated-input search can give.",
+            BASE + " Thresholds are fixed per case; threshold 0 (every file permanently low-use) is excluded from the fixed-point clause.", "4 C11"),
 }
 
 NOT_YET = "check not implemented yet in this revision of /verif (work in progress, see DESIGN.md section 8)"
